@@ -314,6 +314,38 @@ def run (s : St) (as : List Act) : St := as.foldl step s
 
 def init : St := {}
 
+/-! ## the reactor's event translation (reactor.cpp), tables regenerated into `Gen` -/
+
+inductive Backend | epoll | poll | select
+  deriving DecidableEq, Repr, Inhabited
+
+/-- `int x=0; if(event & mask) x|=bits; …; return x;` -/
+def applyTable (tbl : List (Nat × Nat)) (k : Nat) : Nat :=
+  tbl.foldl (fun acc r => if k &&& r.1 ≠ 0 then acc ||| r.2 else acc) 0
+
+def toUserTable : Backend → List (Nat × Nat)
+  | .epoll => Gen.epollToUser | .poll => Gen.pollToUser | .select => Gen.selectToUser
+def fromUserTable : Backend → List (Nat × Nat)
+  | .epoll => Gen.epollFromUser | .poll => Gen.pollFromUser | .select => Gen.selectFromUser
+
+/-- the `reactor::event` handed to run_one for a kernel report `k` on descriptor `fd` -/
+def kernelToEvent (b : Backend) (fd k : Nat) : Event :=
+  let u := applyTable (toUserTable b) k
+  { fd := fd, rd := decide (u &&& Gen.userIn ≠ 0), wr := decide (u &&& Gen.userOut ≠ 0), err := decide (u &&& Gen.userErr ≠ 0) }
+
+/-- kernel report bits that end a wait for readability: POLLIN|POLLERR|POLLHUP (same values for EPOLL*);
+    for select: in the read set or in the except set -/
+def readDone : Backend → Nat
+  | .epoll => 25 | .poll => 25 | .select => 5
+/-- … for writability: POLLOUT|POLLERR|POLLHUP; select: write set or except set -/
+def writeDone : Backend → Nat
+  | .epoll => 28 | .poll => 28 | .select => 6
+/-- the kernel bit that a registration for reactor::in / reactor::out must request -/
+def kernelIn : Backend → Nat
+  | .epoll => 1 | .poll => 1 | .select => 1
+def kernelOut : Backend → Nat
+  | .epoll => 4 | .poll => 4 | .select => 2
+
 /-! ## thread pool (`cppcms::impl::thread_pool`) -/
 
 structure Job where
